@@ -70,6 +70,8 @@ type Obligation struct {
 	Model    string
 	Inputs   map[string]string // model values of the function's inputs
 	Optional bool              // inferred/auxiliary: failure is "undecided", not a violation
+	HeapSorts map[string]string // heap variable -> sort (to declare entry values the query never mentions)
+	Bounds   string            // soft bounds on the inputs, tried first when extracting a replayable model
 }
 
 type Enc struct {
@@ -88,6 +90,7 @@ type Enc struct {
 	inputs      []string // SMT consts that are function inputs (for model extraction)
 	ifaces      map[string]*types.Interface
 	inlineStack []*ssa.Function
+	bounds      strings.Builder
 }
 
 type LoopInfo struct {
@@ -100,6 +103,7 @@ type LoopInfo struct {
 	hdrHeap  *Heap
 	varExprs []Clause
 	inferred bool
+	framed   map[string]bool
 }
 
 type retSite struct {
@@ -129,6 +133,8 @@ type Frame struct {
 	args     []Val
 	panicked bool
 	curArgTypes []types.Type
+	curResTypes *types.Tuple
+	selfTerm string
 	siteKeys map[ssa.Instruction]string
 	defers   []*ssa.Defer
 }
@@ -510,6 +516,7 @@ func (e *Enc) addObl(kind, detail, reach, cond string, pos token.Pos, src string
 	qb.WriteString(e.body.String())
 	fmt.Fprintf(&qb, "(assert %s)\n(assert (not %s))\n", reach, cond)
 	o.Query = qb.String()
+	o.Bounds = e.bounds.String()
 	e.obls = append(e.obls, o)
 	return o
 }
